@@ -16,7 +16,7 @@ from vf.core import Suite, coq_list, coq_Z
 from vf.gen import pick_weighted
 
 ID = "C50"
-THEOREMS = ["C50_tar_entries_eq", "C50_archive_tar_eq", "C50_archive_tar_eq_sub", "C50_tar_modes", "C50_filter_file_agree",
+THEOREMS = ["C50_tar_entries_eq", "C50_tar_entries_eq_filtered", "C50_archive_tar_eq", "C50_archive_tar_eq_sub", "C50_tar_modes", "C50_filter_file_agree",
             "C50_zip_files_partial", "C50_zip_refuted", "C50_empty_dir_refuted", "C50_filter_refuted"]
 MODEL_FILES = ["Archive.v"]
 MODELLED = ("internal/archive/archive.go: WriteArchive (format dispatch, HasInvalidPrefix), WriteTarArchive, WriteZipArchive "
@@ -318,7 +318,7 @@ class Main(Suite):
     go_cmd = "c50"
     coq_imports = "From GoGit Require Import Model.Archive Spec.GitArchive."
     quick_n = 200
-    thorough_n = 4000
+    thorough_n = 1500
     coq_chunk = 150
 
     def gen(self, rng, n, tier):
